@@ -228,7 +228,8 @@ PLANS = {
     ),
     'C09': dict(
         module='RucteProps.C09',
-        theorems=['Ructe.C09.btree_insert_sorted', 'Ructe.C09.btree_keys', 'Ructe.C09.btree_perm', 'Ructe.C09.get_exact', 'Ructe.C09.get_sound', 'Ructe.C09.get_complete', 'Ructe.C09.staticsLine_lists'],
+        extra_modules=['RucteProps.C09Hist'],
+        theorems=['Ructe.C09.btree_insert_sorted', 'Ructe.C09.btree_keys', 'Ructe.C09.btree_perm', 'Ructe.C09.get_exact', 'Ructe.C09.get_sound', 'Ructe.C09.get_complete', 'Ructe.C09.staticsLine_lists', 'Ructe.C09.statics_complete', 'Ructe.C09.statics_sorted_nodup', 'Ructe.C09.statics_order_independent', 'Ructe.C09.get_finds_exactly_added'],
         runs=[dict(suite='script', mix='statics', n=dict(quick=200, thorough=4000), projection='script+files+names', tags=['C09'], statics_oracle=True)],
         correspondence='the STATICS line and names of statics.rs vs the model',
         rule='as C07 with name sets straddling - . _ digits upper/lower case and common prefixes, shuffled insertion orders (twins); oracle: STATICS lists each published name once in ascending byte order; non-trivial = items checked',
@@ -239,7 +240,8 @@ PLANS = {
     ),
     'C16': dict(
         module='RucteProps.C16',
-        theorems=['Ructe.C16.mangle_ascii', 'Ructe.C16.mangle_is_ident', 'Ructe.C16.mangle_not_keyword', 'Ructe.C16.getNames_maps', 'Ructe.C16.getNames_keeps'],
+        extra_modules=['RucteProps.C09Hist'],
+        theorems=['Ructe.C16.mangle_ascii', 'Ructe.C16.mangle_is_ident', 'Ructe.C16.mangle_not_keyword', 'Ructe.C16.getNames_maps', 'Ructe.C16.getNames_keeps', 'Ructe.C09.getNames_maps_all'],
         runs=[dict(suite='script', mix='statics', n=dict(quick=200, thorough=4000), projection='script+names', tags=['C16'], statics_oracle=True)],
         correspondence='identifiers (keys of get_names(), item names) vs Ructe.mangle',
         rule='as C07; oracle: identifier = every non-alphanumeric char replaced by _, n before a leading digit, legal Rust identifier; non-trivial = items checked',
